@@ -492,7 +492,7 @@ def _collapsed_then_reorganised(c):
     """a split whose index is one repeated value makes the trajectory constant (hence singleton after repeat detection) along that
     axis; a later split of that axis / merge of k2 and k1 then hits the same situation as a trajectory given broadcast"""
     for i, o in enumerate(c['ops']):
-        if o['op'] in ('split_k1', 'split_k2') and len(o['sidx'][0]) > 1 and len({v for r in o['sidx'] for v in r}) == 1:
+        if o['op'] in ('split_k1', 'split_k2') and len(o['sidx'][0]) > 1 and all(len(set(r)) == 1 for r in o['sidx']):   # every block repeats one index
             if any(n['op'] in (o['op'], 'rearrange') for n in c['ops'][i + 1:]):
                 return True
     return False
